@@ -25,7 +25,7 @@ func (c *Case) ID() string {
 	return fmt.Sprintf("%s[%s] fault=%s@%d", c.Wrapper, c.Nodes, c.Fault, c.At)
 }
 
-var wrappers = []string{"flat", "for", "if", "with", "autoescape", "ifchanged", "spaceless", "filter", "filter-length", "for-filter-length", "include", "include-lazy", "macro", "extends", "for-include", "ssi-parsed", "for-empty", "for-reversed", "ifequal", "block", "import-macro", "if-elif", "extends-own-options", "extends-2-own-options", "macro-reads-set", "ifchanged-gap", "for-macro-reads-loop", "with-swap"}
+var wrappers = []string{"flat", "for", "if", "with", "autoescape", "ifchanged", "spaceless", "filter", "filter-length", "for-filter-length", "include", "include-lazy", "macro", "extends", "for-include", "ssi-parsed", "for-empty", "for-reversed", "ifequal", "block", "import-macro", "if-elif", "extends-own-options", "extends-2-own-options", "macro-reads-set", "ifchanged-gap", "for-macro-reads-loop", "with-swap", "ctx-call"}
 
 // build returns the file set, the name of the entry file and the expected fault-free output.
 func build(wrapper, nodes string) (files map[string]string, expected string, ticks int) {
@@ -90,6 +90,10 @@ func build(wrapper, nodes string) (files map[string]string, expected string, tic
 	case "with":
 		files["/main"] = "<{% with a=1 %}" + b + "{% endwith %}>"
 		expected = "<" + render() + ">"
+	case "ctx-call":
+		// context functions that take the execution context implicitly, with 3, 5 and 6 written arguments
+		files["/main"] = "{{ cf3(1, \"s\", 3) }}" + b + "{{ cf5(1, 2, 3, 4, 5) }}{{ cf6(1, 2, 3, 4, 5, 6) }}"
+		expected = "1/s/3" + render() + "12345" + "123456"
 	case "with-swap":
 		// every pair refers to a name another pair of the same tag binds: all of them see the surrounding scope
 		files["/main"] = "<{% with p=q q=r r=p %}{{ p }}{{ q }}{{ r }}" + b + "{% endwith %}{{ p }}>"
@@ -248,6 +252,9 @@ func (c *Case) Exec(t *eng.T) {
 		n := 0
 		return pongo2.Context{
 			"two": []int{1, 2}, "yes": true, "incname": "inc", "gap": []int{1, 0, 1}, "p": 1, "q": 2, "r": 3,
+			"cf3": func(ec *pongo2.ExecutionContext, a int, b string, c int) string { return fmt.Sprintf("%d/%s/%d", a, b, c) },
+			"cf5": func(ec *pongo2.ExecutionContext, a, b, c, d, e int) string { return fmt.Sprint(a, b, c, d, e)[0:0] + fmt.Sprintf("%d%d%d%d%d", a, b, c, d, e) },
+			"cf6": func(ec *pongo2.ExecutionContext, a, b, c, d, e, f int) string { return fmt.Sprintf("%d%d%d%d%d%d", a, b, c, d, e, f) },
 			"tick": func() (*pongo2.Value, error) {
 				n++
 				if c.Fault == "tick" && n == c.At {
